@@ -7,7 +7,7 @@
    the oracle O, about which [doc_laws] assumes: float texts are literals of the JSON number grammar, the
    time text is printable ASCII without quote or backslash.  Only statements, closed by [exact]. *)
 From Coq Require Import List NArith ZArith Bool Lia.
-From Verif Require Import Base.Outcome Wire.Item Gen.Consts Wire.Json Wire.JsonRT Wire.JsonLeaf Wire.JsonDoc Wire.JsonDocProofs.
+From Verif Require Import Base.Outcome Wire.Item Gen.Consts Wire.Json Wire.JsonRT Wire.JsonLeaf Wire.JsonDoc Wire.JsonDocProofs Wire.JsonAccept.
 From Verif Require C09.Spec.
 Import ListNotations.
 Open Scope N_scope.
@@ -52,7 +52,8 @@ Print Assumptions C09_doc_value.
 (* PARTIAL (reverse direction): only for the texts the Encoder produces -- the standard parser and the
    library's Decode(&interface{}) both accept them, with jv_of resp. norm as the data.  Missing: the same for
    an ARBITRARY valid_json text within the supported value range (the decoder is more lenient than the
-   grammar; "valid => accepted with the right data" for hand-written documents is not proved). *)
+   grammar; "valid => accepted with the right data" for hand-written documents is not proved HERE: it is
+   C09_doc_decodes / C09_doc_accepts below; this theorem stays for the encoder's texts, where the data is [norm]). *)
 Theorem C09_doc_accepts_partial : forall (O : oracle), doc_laws (c09_leaf_of O) -> float_time_laws (c09_leaf_of O) ->
   forall (o : eopts) (D : dopts) (i : item),
   jdoc (c09_leaf_of O) o false i -> jwf (c09_leaf_of O) o D false i -> (Z.of_nat (depth i) < maxdepth D)%Z ->
@@ -62,6 +63,91 @@ Theorem C09_doc_accepts_partial : forall (O : oracle), doc_laws (c09_leaf_of O) 
     = Ok (norm (c09_leaf_of O) o D false i, inp (after (isnum (c09_leaf_of O) o false i) (term o))).
 Proof. exact doc_accepts_partial_lemma. Qed.
 Print Assumptions C09_doc_accepts_partial.
+
+(* ------------------------------------------------------------------ *)
+(* THE READING DIRECTION, every document of the grammar (Wire/JsonAccept.v).
+
+   [jdec L D depth key v] is Decode(&interface{}) written as a function of the reference parse, read left
+   to right: null / true / false; a number literal goes through the number-kind rule [naked_num] (uint64 /
+   int64 / float64 by the shape of the literal and PreferFloat / SignedInteger, C09_doc_number_kind); a
+   string is the unescaped bytes ([rd_quoted] with key = false); an array is the items of its elements in
+   order; an object the entries in document order with the member name as [jkey] (the string, or under
+   MapKeyAsString with map[interface{}]interface{} the bool / number it reads as).  Its errors are the
+   decoder's: Err EDepth as soon as nesting reaches MaxDepth, the number reader's refusal (1e999),
+   Err EUnsupported at a repeated member name (what the code does there is not modelled in Wire/Json.v).
+
+   For EVERY text the reference parser accepts -- any white space (space, \t, \n, \r) between tokens, any
+   member order, any nesting, any number literal, any string literal incl. escapes, \u0000, surrogate pairs
+   and lone surrogates (Spec.unescape: U+FFFD) -- every option vector D and every fuel >= dec_fuel:
+   Decode(&interface{}) on a fresh decoder returns exactly jdec of the parse, and leaves unread what follows
+   the value (after a bare top-level number the one delimiter byte is consumed as the pending token: [unread]).
+   Guards: [doc_pinfree]: no string literal of the document is in the class of known finding F09-2r (a surrogate
+   \u escape immediately followed by a \u escape it does not pair with; [doc_strings] lists the literals the
+   parser reads); [delim_ok]: a bare top-level number is followed by the end, white space, or a byte that
+   cannot continue a number (always so when rest = [], i.e. valid_json). *)
+Theorem C09_doc_decodes : forall (O : oracle) (D : dopts) (s : list N) (v : jvalue) (rest : list N),
+  std_parse s = Some (v, rest) -> doc_pinfree s = true -> delim_ok (isnumv v) rest ->
+  forall fuel : nat, (dec_fuel (st0 s) <= fuel)%nat ->
+  exists r, sws r = rest /\
+    dec_naked (c09_leaf_of O) D fuel s = (do i <- jdec (c09_leaf_of O) D 0%Z false v ;; Ok (i, unread v r)).
+Proof. exact c09_doc_decodes_lemma. Qed.
+Print Assumptions C09_doc_decodes.
+
+(* A valid JSON document (valid_json: one value, white space around it, nothing else) is ACCEPTED with the
+   right data: Ok [jitem] (= jdec without its error cases), trailing white space unread -- whenever its nesting is below
+   MaxDepth (at MaxDepth and beyond: Err EDepth by C09_doc_decodes, not an acceptance), every number literal is one
+   the number reader takes under D, and the member names of each object are pairwise different as keys ([jsupp]).
+   Same guard for F09-2r. *)
+Theorem C09_doc_accepts : forall (O : oracle) (D : dopts) (s : list N),
+  valid_json s = true -> doc_pinfree s = true ->
+  exists v, std_parse s = Some (v, []) /\
+  forall fuel : nat, (dec_fuel (st0 s) <= fuel)%nat ->
+  exists ws, forallb stdws ws = true /\
+    dec_naked (c09_leaf_of O) D fuel s = (do i <- jdec (c09_leaf_of O) D 0%Z false v ;; Ok (i, ws)) /\
+    (jsupp (c09_leaf_of O) D v -> (Z.of_nat (jdepth v) < maxdepth D)%Z ->
+     dec_naked (c09_leaf_of O) D fuel s = Ok (jitem (c09_leaf_of O) D false v, ws)).
+Proof. exact c09_doc_accepts_lemma. Qed.
+Print Assumptions C09_doc_accepts.
+
+(* the same without the F09-2r guard is false of the faithful model: the document "\ud800\u0041" (one string
+   literal) is valid and denotes U+FFFD 'A'; the decoder returns U+FFFD alone (the \u0041 is eaten) *)
+Definition C09_doc_accepts_full_statement : Prop := doc_accepts_full_statement.
+Theorem C09_doc_accepts_refuted :
+  exists (O : oracle) (s : list N) (v : jvalue),
+    valid_json s = true /\ doc_pinfree s = false /\ std_parse s = Some (v, []) /\
+    forall D ws, dec_naked (c09_leaf_of O) D (dec_fuel (st0 s)) s
+                 <> (do i <- jdec (c09_leaf_of O) D 0%Z false v ;; Ok (i, ws)).
+Proof. exact doc_accepts_refuted_ex. Qed.
+Print Assumptions C09_doc_accepts_refuted.
+
+(* one value anywhere inside a text, from ANY tokenizer state that looks at [s] (pending token included:
+   advance st = skipws s), any depth counter, key or value position, any fuel above the reference parser's *)
+Theorem C09_doc_decodes_value : forall (O : oracle) (D : dopts) (fuel : nat) (s : list N) (v : jvalue) (r : list N)
+    (dp : Z) (key : bool) (tz : st) (f' : nat),
+  std_value fuel s = Some (v, r) -> forallb pinfree (strs_value fuel s) = true -> delim_ok (isnumv v) r ->
+  (fuel < f')%nat -> advance tz = skipws s ->
+  dec (c09_leaf_of O) D f' dp key tz = (do i <- jdec (c09_leaf_of O) D dp key v ;; Ok (i, after (isnumv v) r)).
+Proof. exact c09_doc_value_lemma. Qed.
+Print Assumptions C09_doc_decodes_value.
+
+(* the number-kind rule on the literals of the grammar (any leaf: pfloat is the float reader, C09_num):
+   an integer literal below 2^64 without PreferFloat is a uint64 (int64 under SignedInteger, refused from 2^63 on),
+   a negative one an int64 down to -2^63 and a float64 below; with a fraction or an exponent, or under PreferFloat,
+   a float64 (or the float reader's refusal).  Not proved: integer literals >= 2^64 (they go to the float reader). *)
+Theorem C09_doc_number_kind : forall (L : leaf) (D : dopts) (up : bool) (n : Verif.C09.Spec.numlit),
+  Verif.C09.Spec.wf_numlit n = true ->
+  (Verif.C09.Spec.nfrac n = None -> Verif.C09.Spec.nexp n = None -> preferFloat D = false ->
+   (Verif.C09.Spec.ival (Verif.C09.Spec.nint n) < 2 ^ 64)%Z ->
+   naked_num L D (Verif.C09.Spec.render_num up n) =
+     let u := Verif.C09.Spec.ival (Verif.C09.Spec.nint n) in
+     if Verif.C09.Spec.nneg n
+     then (if (2 ^ 63 <? u)%Z then as_float L (Verif.C09.Spec.render_num up n) else Ok (IInt (- u)))
+     else if signedInteger D then (if (2 ^ 63 <=? u)%Z then Err EOther else Ok (IInt u))
+     else Ok (IUint (Z.to_N u))) /\
+  ((preferFloat D = true \/ Verif.C09.Spec.nfrac n <> None \/ Verif.C09.Spec.nexp n <> None) ->
+   naked_num L D (Verif.C09.Spec.render_num up n) = as_float L (Verif.C09.Spec.render_num up n)).
+Proof. exact (fun L D up n H => conj (naked_num_int L D up n H) (naked_num_float L D up n H)). Qed.
+Print Assumptions C09_doc_number_kind.
 
 (* ---- non-vacuity *)
 Definition dT : tables :=
@@ -89,4 +175,46 @@ Proof.
   cbv zeta. split; [exact toy_doc_laws|]. split; [exact c09_leaf_eq|]. split.
   - vm_compute. repeat match goal with |- _ /\ _ => split end; try reflexivity; try lia; try discriminate; try (eexists _, _; reflexivity).
   - vm_compute. repeat apply conj; reflexivity.
+Qed.
+
+(* a hand-written document: odd white space (space, tab, CR LF, LF) between all tokens, escapes (\n, \u00e9, a
+   surrogate pair, a lone surrogate, \\ \" \/), nested and empty containers, numbers with negative exponent /
+   capital E and plus sign / -0 / MaxUint64 / MinInt64:
+    {<TAB>"a\n\u00e9\ud834\udd1e\ud800" :[ 1 ,-2.5e-3,<CR><LF> true,null , {} ,[ ] , "x\\\"y\/" , -0 , 18446744073709551615 , -9223372036854775808],<LF> "k" : { "n" : 0.1E+2 , "m":false } } <LF> *)
+Definition hw_doc : list N :=
+  [32; 123; 9; 34; 97; 92; 110; 92; 117; 48; 48; 101; 57; 92; 117; 100; 56; 51; 52; 92; 117; 100; 100; 49; 101; 92; 117; 100; 56; 48; 48; 34;
+   32; 58; 91; 32; 49; 32; 44; 45; 50; 46; 53; 101; 45; 51; 44; 13; 10; 32; 116; 114; 117; 101; 44; 110; 117; 108; 108; 32; 44; 32; 123; 125;
+   32; 44; 91; 32; 93; 32; 44; 32; 34; 120; 92; 92; 92; 34; 121; 92; 47; 34; 32; 44; 32; 45; 48; 32; 44; 32;
+   49; 56; 52; 52; 54; 55; 52; 52; 48; 55; 51; 55; 48; 57; 53; 53; 49; 54; 49; 53; 32; 44; 32;
+   45; 57; 50; 50; 51; 51; 55; 50; 48; 51; 54; 56; 53; 52; 55; 55; 53; 56; 48; 56; 93; 44; 10; 32; 34; 107; 34; 32; 58; 32; 123; 32;
+   34; 110; 34; 32; 58; 32; 48; 46; 49; 69; 43; 50; 32; 44; 32; 34; 109; 34; 58; 102; 97; 108; 115; 101; 32; 125; 32; 125; 32; 10].
+(* the float reader's answers for the two float literals (strconv.ParseFloat bits) *)
+Definition hw_T : tables :=
+  mktables [] [] [([45; 50; 46; 53; 101; 45; 51], 13791283066904122491); ([48; 46; 49; 69; 43; 50], 4621819117588971520)] [].
+Definition hw_D : dopts := mkdopts false false false false 0.
+Definition hw_item : item :=
+  IMap [(IStr [97; 10; 195; 169; 240; 157; 132; 158; 239; 191; 189],
+         IArr [IUint 1; IF64 13791283066904122491; IBool true; INil; IMap []; IArr []; IStr [120; 92; 34; 121; 47];
+               IInt 0; IUint 18446744073709551615; IInt (-9223372036854775808)]);
+        (IStr [107], IMap [(IStr [110], IF64 4621819117588971520); (IStr [109], IBool false)])].
+
+Example C09_doc_accepts_nonvacuous :
+  valid_json hw_doc = true /\ doc_pinfree hw_doc = true /\ length (doc_strings hw_doc) = 5%nat /\
+  (exists v, std_parse hw_doc = Some (v, []) /\ jdepth v = 3%nat /\
+             jdec (c09_leaf hw_T) hw_D 0%Z false v = Ok hw_item /\ jitem (c09_leaf hw_T) hw_D false v = hw_item /\
+             (* the same document with MaxDepth = 3: refused for its depth; under SignedInteger: MaxUint64 is refused *)
+             jdec (c09_leaf hw_T) (mkdopts false false false false 3) 0%Z false v = Err EDepth /\
+             jdec (c09_leaf hw_T) (mkdopts false true false false 0) 0%Z false v = Err EOther) /\
+  dec_naked (c09_leaf hw_T) hw_D (dec_fuel (st0 hw_doc)) hw_doc = Ok (hw_item, [32; 10]) /\
+  (* a repeated member name: valid for the grammar, not modelled (jdec and the model agree on EUnsupported) *)
+  valid_json [123; 34; 97; 34; 58; 49; 44; 34; 97; 34; 58; 50; 125] = true /\
+  dec_naked (c09_leaf hw_T) hw_D 28 [123; 34; 97; 34; 58; 49; 44; 34; 97; 34; 58; 50; 125] = Err EUnsupported /\
+  (* a bare top-level number ends at the end of the input or at white space *)
+  dec_naked (c09_leaf hw_T) hw_D 6 [32; 52; 50] = Ok (IUint 42, []) /\
+  dec_naked (c09_leaf hw_T) hw_D 8 [52; 50; 10; 32] = Ok (IUint 42, [32]).
+Proof.
+  split; [vm_compute; reflexivity|]. split; [vm_compute; reflexivity|]. split; [vm_compute; reflexivity|].
+  split.
+  { eexists. split; [vm_compute; reflexivity|]. vm_compute. repeat apply conj; reflexivity. }
+  vm_compute. repeat apply conj; reflexivity.
 Qed.
